@@ -4,9 +4,11 @@
    and ZMQEventLoop (Model/ZmqLoop.v, second half of this file), tied to
    urwid/event_loop/select_loop.py and zmq_loop.py by the virtual-clock correspondence of
    harness/props/c13.py.  Only statements; every proof is [exact]/[apply] of a lemma of
-   Proofs/SelectLoopProofs.v / Proofs/ZmqLoopProofs.v.  The adapter loops (asyncio, tornado,
-   twisted, trio) and the loops on their real selector/poller are NOT covered by theorems: they
-   are contract-tested on the real runtimes by the harness (oracle only).
+   Proofs/SelectLoopProofs.v / Proofs/ZmqLoopProofs.v / Proofs/AdapterLoopProofs.v.  Third part:
+   the AsyncioEventLoop WRAPPER (Model/AdapterLoop.v) over ANY host runtime, relative to a host
+   specification (theorems named _partial: the host specification is a hypothesis).  tornado,
+   twisted, trio and the loops on their real selector/poller are contract-tested on the real
+   runtimes by the harness (oracle only).
 
    Every theorem is quantified over
      setup : any list of calls made before run() (alarm / remove_alarm / watch_file / ...),
@@ -22,7 +24,7 @@
    reads, and that clock never goes backwards. *)
 From Coq Require Import ZArith List Bool.
 Import ListNotations.
-From Urwid Require Import PyBase SelectLoop ZmqLoop SelectLoopSpec SelectLoopFacts SelectLoopProofs ZmqLoopSpec ZmqLoopProofs.
+From Urwid Require Import PyBase SelectLoop ZmqLoop AdapterLoop SelectLoopSpec SelectLoopFacts SelectLoopProofs ZmqLoopSpec ZmqLoopProofs AdapterLoopSpec AdapterLoopProofs AdapterCheck AdapterCheckProofs.
 Open Scope Z_scope.
 
 Definition history (setup : list action) (beh : behaviour) (env : list step) : list event :=
@@ -424,4 +426,197 @@ Example zmq_ex_history :
    ESelect (Some 0) [] 2 []; EIdleCall 1 4 2;
    ESelect (Some 1) [] 2 []; EAlarmCall 2 5 3; ERaise true]
   /\ zresult ex_setup ex_beh ex_env = OReturned.
+Proof. vm_compute. split; reflexivity. Qed.
+
+
+(* ======================================================================================
+   The adapter wrapper (Model/AdapterLoop.v: AsyncioEventLoop.alarm / remove_alarm / watch_file /
+   remove_watch_file / enter_idle / remove_enter_idle / _also_call_idle / _entering_idle /
+   _exception_handler / run) over ANY host: H is any type of host states, hst any record of host
+   operations, h0 any initial host state; setup, beh, env as above; fuel = any bound on the number
+   of host decisions.  HYPOTHESIS of every theorem (hence _partial): the log of what the host
+   answered during this run satisfies the host specification [host_ok] (AdapterLoopSpec.v):
+   handles are fresh and due at now + delay; a timer runs at most once, not when cancelled, not
+   before it is due; the clock does not go backwards; a reader runs only while registered;
+   remove_reader / cancelled() answer truthfully; the host never polls past a pending timer, never
+   polls after stop(), and run_forever() returns only after stop().
+   The model is tied to asyncio_loop.py on the real asyncio.SelectorEventLoop (virtual clock,
+   scripted selector) by the correspondence of harness/props/c13.py, with the concrete host model
+   [asyncio_host]; that [asyncio_host] satisfies [host_ok] on every run is NOT proved.
+   ====================================================================================== *)
+Section Adapter.
+Variable H : Type.
+Variable hst : host H.
+Variable h0 : H.
+
+Definition ghistory (setup : list action) (beh : behaviour) (env : list step) (fuel : nat) : list event :=
+  a_trace H (fst (gscenario H hst h0 setup beh env fuel)).
+Definition ghostlog (setup : list action) (beh : behaviour) (env : list step) (fuel : nat) : list hcall :=
+  a_hlog H (fst (gscenario H hst h0 setup beh env fuel)).
+Definition gresult (setup : list action) (beh : behaviour) (env : list step) (fuel : nat) : outcome :=
+  snd (gscenario H hst h0 setup beh env fuel).
+
+(* clause 1+2: an alarm callback runs only for an alarm that was set with this callback, not before
+   its due time, not twice, not after a successful removal; remove_alarm reports True exactly for an
+   alarm that was created and not removed before (like asyncio's TimerHandle: also after it ran) *)
+Theorem adapter_alarm_once_not_early_partial :
+  forall setup beh env fuel newer k id t older,
+    (forall a, In a setup -> action_raises a = false) -> host_ok (ghostlog setup beh env fuel) ->
+    ghistory setup beh env fuel = newer ++ EAlarmCall k id t :: older ->
+    exists due, aset k due id older /\ due <= t /\ ~ acalled k older /\ ~ aremoved k older.
+Proof.
+  intros setup beh env fuel newer k id t older Hs Hok E.
+  destruct (adapter_contract H hst h0 setup beh env fuel Hs Hok) as [Hh _].
+  destruct (proj1 (hist_ok_split _ _) Hh _ _ _ E) as [due [[P1 [P2 P3]] Hd]]. exists due. auto.
+Qed.
+
+Theorem adapter_remove_alarm_result_partial :
+  forall setup beh env fuel newer k ok older,
+    (forall a, In a setup -> action_raises a = false) -> host_ok (ghostlog setup beh env fuel) ->
+    ghistory setup beh env fuel = newer ++ ERmAlarm k ok :: older ->
+    (ok = true <-> ((exists d i, aset k d i older) /\ ~ aremoved k older)).
+Proof.
+  intros setup beh env fuel newer k ok older Hs Hok E.
+  destruct (adapter_contract H hst h0 setup beh env fuel Hs Hok) as [Hh _].
+  exact (proj1 (hist_ok_split _ _) Hh _ _ _ E).
+Qed.
+
+(* clause 3: a watch callback runs only as the callback currently registered for its descriptor
+   (never after remove_watch_file); remove_watch_file reports True exactly for a registered one *)
+Theorem adapter_watch_until_removed_partial :
+  forall setup beh env fuel newer fd id t older,
+    (forall a, In a setup -> action_raises a = false) -> host_ok (ghostlog setup beh env fuel) ->
+    ghistory setup beh env fuel = newer ++ EWatchCall fd id t :: older ->
+    watched fd older = Some id.
+Proof.
+  intros setup beh env fuel newer fd id t older Hs Hok E.
+  destruct (adapter_contract H hst h0 setup beh env fuel Hs Hok) as [Hh _].
+  exact (proj1 (hist_ok_split _ _) Hh _ _ _ E).
+Qed.
+
+Theorem adapter_remove_watch_result_partial :
+  forall setup beh env fuel newer fd ok older,
+    (forall a, In a setup -> action_raises a = false) -> host_ok (ghostlog setup beh env fuel) ->
+    ghistory setup beh env fuel = newer ++ ERmWatch fd ok :: older ->
+    (ok = true <-> watched fd older <> None).
+Proof.
+  intros setup beh env fuel newer fd ok older Hs Hok E.
+  destruct (adapter_contract H hst h0 setup beh env fuel Hs Hok) as [Hh _].
+  exact (proj1 (hist_ok_split _ _) Hh _ _ _ E).
+Qed.
+
+(* clause 4 + alarm liveness + clause 6 (first half): every poll of the host happens while no callback
+   has raised; it never extends past the due time of a pending alarm; and a poll that can really wait
+   happens only after an idle round that followed the last alarm / watch callback: the history
+   splits so that no alarm or watch callback ran after the split and every idle callback registered
+   before it and not removed since has been called after it *)
+Theorem adapter_idle_before_quiescent_partial :
+  forall setup beh env fuel newer to regs t ready older,
+    (forall a, In a setup -> action_raises a = false) -> host_ok (ghostlog setup beh env fuel) ->
+    ghistory setup beh env fuel = newer ++ ESelect to regs t ready :: older ->
+    no_raise older /\
+    match to with
+    | None => forall k d i, ~ pending k d i older
+    | Some d => 0 < d -> forall k due i, pending k due i older -> t + d <= due
+    end /\
+    (quiescent to ->
+     exists batch rest, older = batch ++ rest /\
+       (forall e, In e batch -> is_aw_call e = false) /\
+       (forall h id, iset h id rest -> ~ iremoved h older -> exists t', In (EIdleCall h id t') batch)).
+Proof.
+  intros setup beh env fuel newer to regs t ready older Hs Hok E.
+  destruct (adapter_contract H hst h0 setup beh env fuel Hs Hok) as [Hh _].
+  exact (proj1 (hist_ok_split _ _) Hh _ _ _ E).
+Qed.
+
+(* clause 5: an idle callback is called only while registered *)
+Theorem adapter_idle_called_only_while_registered_partial :
+  forall setup beh env fuel newer h id t older,
+    (forall a, In a setup -> action_raises a = false) -> host_ok (ghostlog setup beh env fuel) ->
+    ghistory setup beh env fuel = newer ++ EIdleCall h id t :: older ->
+    iset h id older /\ ~ iremoved h older.
+Proof.
+  intros setup beh env fuel newer h id t older Hs Hok E.
+  destruct (adapter_contract H hst h0 setup beh env fuel Hs Hok) as [Hh _].
+  exact (proj1 (hist_ok_split _ _) Hh _ _ _ E).
+Qed.
+
+(* clause 6: run() re-raises exactly when a callback raised the other exception, returns normally only
+   when some callback raised and none raised the other exception (ExitMainLoop); when the run ends
+   because the environment is exhausted or the poll blocks for ever, no callback raised.  (A host may
+   finish the handles that were already queued before it stops: callbacks of the same batch can still
+   run after a raise; no further poll happens, see adapter_idle_before_quiescent_partial.) *)
+Theorem adapter_exception_partial :
+  forall setup beh env fuel,
+    (forall a, In a setup -> action_raises a = false) -> host_ok (ghostlog setup beh env fuel) ->
+    match gresult setup beh env fuel with
+    | ORaised => In (ERaise false) (ghistory setup beh env fuel)
+    | OReturned => (exists b, In (ERaise b) (ghistory setup beh env fuel)) /\ ~ In (ERaise false) (ghistory setup beh env fuel)
+    | OEnvEnd | OBlocked => no_raise (ghistory setup beh env fuel)
+    | OSpin => True          (* out of fuel *)
+    | OKeyError => False
+    end.
+Proof.
+  intros setup beh env fuel Hs Hok.
+  destruct (adapter_contract H hst h0 setup beh env fuel Hs Hok) as [_ Ho]. exact Ho.
+Qed.
+End Adapter.
+Print Assumptions adapter_alarm_once_not_early_partial.
+Print Assumptions adapter_remove_alarm_result_partial.
+Print Assumptions adapter_watch_until_removed_partial.
+Print Assumptions adapter_remove_watch_result_partial.
+Print Assumptions adapter_idle_before_quiescent_partial.
+Print Assumptions adapter_idle_called_only_while_registered_partial.
+Print Assumptions adapter_exception_partial.
+
+(* For the asyncio host model the hypothesis is CHECKED run by run: the extracted model evaluates the
+   boolean checker [hostok_b] (Model/AdapterCheck.v) on the host log of every case of the correspondence
+   and reports the verdict (a 0 would show up as a correspondence difference).  The checker is sound,
+   so for every run on which it says true the whole contract is proved for that run of the model: *)
+Theorem asyncio_checked_run_contract_partial :
+  forall setup beh env,
+    (forall a, In a setup -> action_raises a = false) ->
+    hostok_b (a_hlog ahost (fst (ascenario setup beh env))) = true ->
+    hist_ok aev_ok (a_trace ahost (fst (ascenario setup beh env))) /\
+    match snd (ascenario setup beh env) with
+    | ORaised => In (ERaise false) (a_trace ahost (fst (ascenario setup beh env)))
+    | OReturned => (exists b, In (ERaise b) (a_trace ahost (fst (ascenario setup beh env)))) /\
+                   ~ In (ERaise false) (a_trace ahost (fst (ascenario setup beh env)))
+    | OEnvEnd | OBlocked => no_raise (a_trace ahost (fst (ascenario setup beh env)))
+    | OSpin => True
+    | OKeyError => False
+    end.
+Proof.
+  intros setup beh env Hs Hb. rewrite ascenario_generic in *.
+  apply (adapter_contract ahost asyncio_host ah_init setup beh env _ Hs). now apply hostok_b_sound.
+Qed.
+Print Assumptions asyncio_checked_run_contract_partial.
+
+Theorem host_checker_sound : forall hl, hostok_b hl = true -> host_ok hl.
+Proof. exact hostok_b_sound. Qed.
+Print Assumptions host_checker_sound.
+
+(* the checker accepts the log of the example run and rejects a log in which a timer that was never
+   created fires, and one in which the host polls after stop() *)
+Example checker_accepts : hostok_b (a_hlog ahost (fst (ascenario ex_setup ex_beh ex_env))) = true.
+Proof. vm_compute. reflexivity. Qed.
+Example checker_rejects_unknown_timer : hostok_b [CNext 0 (HTimer 5 TIdle)] = false.
+Proof. vm_compute. reflexivity. Qed.
+Example checker_rejects_poll_after_stop : hostok_b [CNext 0 (HSelect (Some 0) [] 0 []); CStop] = false.
+Proof. vm_compute. reflexivity. Qed.
+
+(* the FULL statements would drop the hypothesis [host_ok] for the asyncio host model; stated, not proved *)
+Definition asyncio_host_meets_spec_full : Prop :=
+  forall setup beh env, (forall a, In a setup -> action_raises a = false) ->
+    host_ok (a_hlog ahost (fst (ascenario setup beh env))).
+
+(* non-vacuity: on the example scenario the asyncio host model does satisfy the hypothesis shape
+   (the run ends by ExitMainLoop, the history is the expected one) *)
+Example asyncio_ex :
+  snd (ascenario ex_setup ex_beh ex_env) = OReturned /\
+  rev (a_trace ahost (fst (ascenario ex_setup ex_beh ex_env))) =
+  [EAlarmSet 0 5 1; EAlarmSet 1 2 2; EWatchSet 7 3; EIdleSet 1 4;
+   ESelect (Some 2) [7] 0 []; EAlarmCall 1 2 2; EAlarmSet 2 3 5;
+   ESelect (Some 0) [7] 2 [7]; EWatchCall 7 3 2; EIdleCall 1 4 2;
+   ESelect (Some 1) [7] 2 []; EAlarmCall 2 5 3; ERaise true].
 Proof. vm_compute. split; reflexivity. Qed.
